@@ -175,6 +175,25 @@ def bearerPrefix : List Char := ['B', 'e', 'a', 'r', 'e', 'r', ' ']
 def extractToken (r : Req) : List Char :=
   if bearerPrefix.isPrefixOf r.authHeader then r.authHeader.drop 7 else r.queryToken
 
+/-! ### the token check
+
+bcrypt keys its cipher with the first 72 bytes of the NUL-terminated password repeated cyclically
+(golang.org/x/crypto/bcrypt: `append(key, 0)`, Blowfish `ExpandKey` cycles the key over 18 words);
+`CompareHashAndPassword` does not reject long input.  The stand-in below is an ideal hash of that
+key: two passwords compare equal iff their 72-byte keys are equal. -/
+
+def NUL : Char := Char.ofNat 0
+
+def bcryptKey (p : List Char) : List Char :=
+  (List.range 72).map (fun i => (p ++ [NUL]).getD (i % (p.length + 1)) NUL)
+
+def bcryptAccepts (token p : List Char) : Bool := bcryptKey p == bcryptKey token
+
+/-- `validateToken` (cache aside): strings longer than 72 bytes or with a NUL byte are refused
+    before hashing, the rest is bcrypt. -/
+def validateToken (token p : List Char) : Bool :=
+  decide (p.length ≤ 72) && !p.contains NUL && bcryptAccepts token p
+
 /-- The mux and what the reached handler does as far as the property is concerned. -/
 def serveMux (f : Flags) (r : Req) : Outcome :=
   match muxRoute (active f) r.connect r.path with
